@@ -43,6 +43,8 @@ def strategy(tier, phase):
         st.tuples(st.just("step"), st.integers(0, 2)).map(list),
         st.tuples(st.just("append"), st.integers(0, 3)).map(list),
         st.tuples(st.just("extend"), st.integers(0, 3), st.integers(1, 2)).map(list),
+        st.tuples(st.just("extend_dup"), st.integers(0, 3)).map(list),
+        st.tuples(st.just("restart"), st.integers(0, 2)).map(list),
         st.tuples(st.just("ins"), st.integers(0, 3), st.booleans(), sel, st.lists(nodesel, min_size=1, max_size=3)).map(list),
         st.tuples(st.just("ins"), st.integers(0, 3), st.booleans(), sel, st.lists(nodesel, min_size=1, max_size=3)).map(list),
         st.tuples(st.just("remove"), st.integers(0, 3), sel).map(list),
@@ -423,6 +425,15 @@ def _execute(case):
                 if w.cursors:
                     w.step(w.cursors[op[1] % len(w.cursors)])
                 continue
+            if name == "restart":
+                # a RecursiveGraphIterator is its own iterator: iter() on the same object abandons the traversal in progress
+                # (wherever it stands, also inside a subgraph) and starts a new one, which owes everything a fresh cursor owes
+                rec = [c for c in w.cursors if c.kind == 2]
+                if rec:
+                    c = rec[op[1] % len(rec)]
+                    w.cursors[c.idx] = Cursor(2, iter(c.it), c.idx)
+                    w.restarted = True
+                continue
             w.edits += 1
             if name == "append":
                 g, L = w.lists(op[1])
@@ -439,6 +450,14 @@ def _execute(case):
                     w.tick(n)
                     L.append(n)
                 w.notify_insert(ns, g is w.G0)
+            elif name == "extend_dup":
+                # one call that lists a node twice (the second occurrence moves it): also on an empty sequence
+                g, L = w.lists(op[1])
+                n1, n2 = w.new_node(), w.new_node()
+                ns = [n1, n2, n1]
+                g.extend(ns)
+                done = w.model_insert(L, L[-1] if L else None, ns, g is w.G0)
+                w.notify_insert(done, g is w.G0)
             elif name == "ins":
                 g, L = w.lists(op[1])
                 before, asel, nsels = op[2], op[3], op[4]
@@ -546,6 +565,8 @@ def _execute(case):
     if len(w.cursors) >= 2:
         classes.append(">=2 cursors")
     fails = [(b, m + f" | script init={case['init']} ops={case['ops']}"[:300]) for b, m in w.fails[:2]]
+    if getattr(w, "restarted", False):
+        classes.append("recursive_iterator_restarted")
     if getattr(w, "ambiguous_tail", 0):
         classes.append("arrival_at_the_place_of_a_removed_current_node(no claim)")
     if any(c.must_yield_tail for c in w.cursors):
